@@ -278,6 +278,32 @@ func TestC22(t *testing.T) {
 			}
 		}
 	})
+	// contents: the list is a list, not a set - the same item may stand at several positions (a block assembler
+	// that was handed a repeat builds exactly that list; whether a block may carry it is decided elsewhere)
+	t.Run("repeated", func(t *testing.T) {
+		ev.Check(t, 150, 3000, func(rt *rapid.T) {
+			n := rapid.IntRange(2, 40).Draw(rt, "n")
+			pick := rapid.SliceOfN(rapid.IntRange(0, n/2), n, n).Draw(rt, "which") // about half of the positions repeat
+			rtxs, rbs, rids := make([]module.Transaction, n), make([][]byte, n), make([][]byte, n)
+			repeats := false
+			seen := map[int]bool{}
+			for i, k := range pick {
+				rtxs[i], rbs[i], rids[i] = txs[k], bs[k], txs[k].ID() // (the shared id table is filled sparsely)
+				if seen[k] {
+					repeats = true
+				}
+				seen[k] = true
+			}
+			labels := []string{"transactions", "repeated-items"}
+			if !repeats {
+				labels = []string{"transactions", "drawn-without-repeat"}
+			}
+			rec.Case(fmt.Sprintf("transactions with repeats n=%d positions=%v", n, pick), repeats, labels...)
+			if m := c22RunTx(rtxs, rbs, rids, n); m != "" {
+				rt.Fatalf("C22 violated: %s (items at positions %v of the distinct pool)", m, pick)
+			}
+		})
+	})
 	t.Run("random", func(t *testing.T) {
 		ev.Check(t, 12, 12, func(rt *rapid.T) {
 			n := rapid.IntRange(0, randMax).Draw(rt, "n")
